@@ -67,6 +67,8 @@ def _finish(obs):
     if obs.gate is not None:
         obs.gate.stop_flag = True
     obs.world.director.stop()
+    for th in getattr(getattr(obs, 'monitor', None), 'late_threads', None) or ():
+        th.join(2.0)
     obs.events = obs.world.log.snapshot()
     return obs
 
@@ -191,7 +193,42 @@ class LoggingMonitor(pp.TransferMonitor):
 
     def notify_exception(self, transfer_id, exception):
         self.w.log.add('pp.exception', label=f't{transfer_id}', exc=repr(exception))
-        return super().notify_exception(transfer_id, exception)
+        r = super().notify_exception(transfer_id, exception)
+        self._late_result(transfer_id)
+        return r
+
+    def _late_result(self, transfer_id):
+        """A caller that asks for the result only NOW - after a failure / cancellation was recorded, while jobs of the download may
+        still be in flight: what it is told must not come before the download is done."""
+        obs = getattr(self, 'obs', None)
+        if obs is None or transfer_id >= len(obs.xfers) or obs.xfers[transfer_id].future is None:
+            return
+        started = self.__dict__.setdefault('_late_started', set())
+        if transfer_id in started:
+            return
+        started.add(transfer_id)
+        x = obs.xfers[transfer_id]
+
+        self._waiting_result(x, 'pp.late_result')
+
+    def _waiting_result(self, x, kind):
+        transfer_id = x.future.meta.transfer_id
+
+        def late():
+            try:
+                x.future.result()
+                outcome = 'success'
+            except BaseException as e:  # noqa
+                outcome = 'raised'
+            from .scenario import temp_leftovers
+
+            st = self._transfer_states[transfer_id]
+            self.w.log.add(kind, label=x.label, outcome=outcome, done=bool(st.done), jobs_left=st.jobs_to_complete,
+                           temps=temp_leftovers(x.dest) if getattr(x, 'dest', None) else [])
+
+        th = threading.Thread(target=late, name=f'vf-res-{kind.replace(".", "-")}-{x.label}', daemon=True)
+        self.__dict__.setdefault('late_threads', []).append(th)
+        th.start()
 
     def notify_done(self, transfer_id):
         self.w.director.point(self.w.director.occurrence(f't{transfer_id}/pp:notify_done'), 'before')
@@ -223,6 +260,9 @@ class LoggingMonitor(pp.TransferMonitor):
         done_before = sorted(tid for tid, st in self._transfer_states.items() if st.done)
         r = super().notify_cancel_all_in_progress()
         self.w.log.add('pp.cancel_all', done_before=done_before)
+        for tid in list(self._transfer_states):
+            if tid not in done_before:
+                self._late_result(tid)
         return r
 
 
@@ -263,6 +303,8 @@ def run_procpool(spec):
     labels = {}
     osu = PPOSUtils(w, labels)
     obs.osutil = osu
+    obs.xfers = []
+    monitor.obs = obs
     dq = queue.Queue(1000)
     wq = queue.Queue(1000)
 
@@ -478,6 +520,8 @@ def run_procpool_full(spec):
                 x.future = dl.download_file(BUCKET, x.key, x.dest, extra_args=dict(t.get('extra_args') or {}) or None,
                                             expected_size=t.get('expected_size'))
                 w.log.add('submit.end', label=x.label)
+                # a caller that waits in result() from the very start (the exit below returns only after the downloads are done)
+                monitor._waiting_result(x, 'pp.early_result')
 
             def submit_all():
                 if spec.get('concurrent_submit'):
